@@ -1,5 +1,6 @@
 """C04 — non-dominated sorting ranks by domination depth; truncation respects rank."""
 import math
+import signal
 from fractions import Fraction
 from vlib import common as C
 from vlib import plat
@@ -118,7 +119,29 @@ class Obs:
     pass
 
 
+class Hang(Exception):
+    pass
+
+
+def _alarm(signum, frame):
+    raise Hang()
+
+
+WATCHDOG_S = 2.0     # one population normally takes a few milliseconds
+
+
 def observe(case):
+    """run the real functions under a watchdog: a call that does not return within WATCHDOG_S seconds is reported"""
+    old = signal.signal(signal.SIGALRM, _alarm)
+    signal.setitimer(signal.ITIMER_REAL, WATCHDOG_S)
+    try:
+        return observe_unguarded(case)
+    finally:
+        signal.setitimer(signal.ITIMER_REAL, 0)
+        signal.signal(signal.SIGALRM, old)
+
+
+def observe_unguarded(case):
     from platypus import nondominated_sort, nondominated_truncate, nondominated_split, nondominated_prune, truncate_fitness
     XF.inexact = 0
     ob = Obs()
@@ -293,7 +316,16 @@ def oracle(case, ob):
 
 
 def check_case(case):
-    ob = observe(case)
+    try:
+        ob = observe(case)
+    except Hang:
+        ob = Obs()
+        ob.attrs, ob.cuts, ob.fcuts, ob.inexact, ob.failed = [], [], [], 1, True
+        return ob, [("call-does-not-return", "nondominated_sort/truncate/split/prune/truncate_fitness did not return within 2 s on this population (some k in 0..n+2)")]
+    except Exception as e:     # an exception on a well-formed population
+        ob = Obs()
+        ob.attrs, ob.cuts, ob.fcuts, ob.inexact, ob.failed = [], [], [], 1, True
+        return ob, [("call-raises", "%s: %s" % (type(e).__name__, e))]
     return ob, oracle(case, ob)
 
 
@@ -435,6 +467,9 @@ def run(ctx):
             lit_idx.append(idx)
         if fails:
             report(ctx, case, fails)
+            if getattr(ob, "failed", False) and any(k == "call-does-not-return" for k, _ in fails):
+                dist["aborted_after_hang_at_population"] = idx
+                break
         if idx in (3, 4):
             ctx.sample({"population": case.to_json(), "(rank, crowding)": ob.attrs, "cuts(k, truncate, split, prune)": [list(c) for c in ob.cuts[:6]]})
     ctx.sample({"coq_case": lits[0][:1500] if lits else ""})
